@@ -46,3 +46,9 @@ Proofs/C11.vos Proofs/C11.vok Proofs/C11.required_vos: Proofs/C11.v Model/Dec.vo
 Props/C11.vo Props/C11.glob Props/C11.v.beautified Props/C11.required_vo: Props/C11.v Model/Dec.vo Model/Enc.vo Spec/Iana.vo Proofs/Enum.vo Proofs/C11.vo
 Props/C11.vio: Props/C11.v Model/Dec.vio Model/Enc.vio Spec/Iana.vio Proofs/Enum.vio Proofs/C11.vio
 Props/C11.vos Props/C11.vok Props/C11.required_vos: Props/C11.v Model/Dec.vos Model/Enc.vos Spec/Iana.vos Proofs/Enum.vos Proofs/C11.vos
+Proofs/C13.vo Proofs/C13.glob Proofs/C13.v.beautified Proofs/C13.required_vo: Proofs/C13.v Model/Values.vo Model/Dec.vo
+Proofs/C13.vio: Proofs/C13.v Model/Values.vio Model/Dec.vio
+Proofs/C13.vos Proofs/C13.vok Proofs/C13.required_vos: Proofs/C13.v Model/Values.vos Model/Dec.vos
+Props/C13.vo Props/C13.glob Props/C13.v.beautified Props/C13.required_vo: Props/C13.v Model/Values.vo Model/Dec.vo Proofs/C13.vo
+Props/C13.vio: Props/C13.v Model/Values.vio Model/Dec.vio Proofs/C13.vio
+Props/C13.vos Props/C13.vok Props/C13.required_vos: Props/C13.v Model/Values.vos Model/Dec.vos Proofs/C13.vos
